@@ -1750,7 +1750,9 @@ impl RelationBuilder {
         if let Some(archqual) = &self.archqual {
             relation.set_archqual(archqual);
         }
-        relation.set_architectures(self.architectures.iter().map(|s| s.as_str()));
+        if !self.architectures.is_empty() {
+            relation.set_architectures(self.architectures.iter().map(|s| s.as_str()));
+        }
         for profile in &self.profiles {
             relation.add_profile(profile);
         }
